@@ -244,6 +244,14 @@ type SketchModel struct {
 	everFolded bool
 	// PeakAbs is the largest sum of |value*weight| seen since the last Clear (a running sum that overflowed once stays infinite).
 	PeakAbs float64
+	// AbsNow is the current sum of |value*weight|, maintained incrementally (float, an estimate).
+	AbsNow float64
+}
+
+func (m *SketchModel) notePeak() {
+	if m.AbsNow > m.PeakAbs {
+		m.PeakAbs = m.AbsNow
+	}
 }
 
 // EverFolded tells whether any weight held was moved by a collapsing store since the last Clear.
@@ -263,7 +271,7 @@ func NewSketchModel(m *gen.Map, sp gen.StoreSpec) *SketchModel {
 }
 
 func (m *SketchModel) Clone() *SketchModel {
-	c := &SketchModel{Map: m.Map, Pos: m.Pos.Clone(), Neg: m.Neg.Clone(), Zero: m.Zero, Lossy: m.Lossy, BinsUnknown: m.BinsUnknown, everFolded: m.everFolded, PeakAbs: m.PeakAbs}
+	c := &SketchModel{Map: m.Map, Pos: m.Pos.Clone(), Neg: m.Neg.Clone(), Zero: m.Zero, Lossy: m.Lossy, BinsUnknown: m.BinsUnknown, everFolded: m.everFolded, PeakAbs: m.PeakAbs, AbsNow: m.AbsNow}
 	c.Items = append([]Item{}, m.Items...)
 	return c
 }
@@ -283,6 +291,8 @@ func (m *SketchModel) Add(v, w float64) {
 		m.Zero += w
 	}
 	m.Items = append(m.Items, Item{v, w})
+	m.AbsNow += math.Abs(v * w)
+	m.notePeak()
 }
 
 func (m *SketchModel) Merge(o *SketchModel) {
@@ -296,6 +306,8 @@ func (m *SketchModel) Merge(o *SketchModel) {
 	if o.PeakAbs > m.PeakAbs {
 		m.PeakAbs = o.PeakAbs
 	}
+	m.AbsNow += o.AbsNow
+	m.notePeak()
 }
 
 func (m *SketchModel) Scale(f float64) {
@@ -305,6 +317,8 @@ func (m *SketchModel) Scale(f float64) {
 	for i := range m.Items {
 		m.Items[i].W *= f
 	}
+	m.AbsNow *= f
+	m.notePeak()
 }
 
 func (m *SketchModel) Clear() {
@@ -316,6 +330,7 @@ func (m *SketchModel) Clear() {
 	m.BinsUnknown = false
 	m.everFolded = false
 	m.PeakAbs = 0
+	m.AbsNow = 0
 }
 
 func (m *SketchModel) Total() float64 { return m.Zero + m.Pos.Total() + m.Neg.Total() }
